@@ -19,6 +19,7 @@ func checkC03(p *Prog, r *Report) {
 	r.Extra["callgraph_nodes"] = len(s.cg.Nodes)
 	c03Globals(p, r, s)
 	c03Locks(p, r, s)
+	c03PoolKey(p, r)
 	c03Session(p, r, s)
 	c03Pooled(p, r, s)
 	c03Go(p, r, s)
@@ -1102,4 +1103,79 @@ func c03Ambient(p *Prog, r *Report, s *ssaProg) {
 		}
 	}
 	r.Ob("scanned", "-", calls > 100, fmt.Sprintf("%d call sites in %d run-reachable functions scanned against %v", calls, len(reach), ambient))
+}
+
+// ---------------------------------------------------------------- R2c cache key identity
+
+// c03PoolKey: the shared file pool may only hand a run the bytes of the file
+// that run asked for: every key used to index the pool's map is the very
+// path expression that is read from disk (no normalisation that can merge two
+// distinct files into one slot).
+func c03PoolKey(p *Prog, r *Report) {
+	r.Rule("C03.R2c", "cache key identity: in the file pool every index of the map is the same expression as the path handed to the file read, so two distinct files can never share a slot (a run never receives another file's bytes from the session cache)", 3)
+	fi := p.Funcs["hermes.FilePool.Get"]
+	if fi == nil {
+		r.Ob("Get", "-", false, "hermes.FilePool.Get not found")
+		return
+	}
+	info := fi.Pkg.TypesInfo
+	// single-assignment local aliases
+	defs := map[types.Object][]ast.Expr{}
+	ast.Inspect(fi.Decl.Body, func(n ast.Node) bool {
+		if as, ok := n.(*ast.AssignStmt); ok && len(as.Lhs) == len(as.Rhs) {
+			for i, l := range as.Lhs {
+				if id, ok := l.(*ast.Ident); ok {
+					obj := info.Defs[id]
+					if obj == nil {
+						obj = info.Uses[id]
+					}
+					if obj != nil {
+						defs[obj] = append(defs[obj], as.Rhs[i])
+					}
+				}
+			}
+		}
+		return true
+	})
+	var canon func(e ast.Expr, depth int) string
+	canon = func(e ast.Expr, depth int) string {
+		if id, ok := e.(*ast.Ident); ok && depth < 5 {
+			if obj := info.Uses[id]; obj != nil && len(defs[obj]) == 1 {
+				return canon(defs[obj][0], depth+1)
+			}
+		}
+		if pe, ok := e.(*ast.ParenExpr); ok {
+			return canon(pe.X, depth)
+		}
+		return types.ExprString(e)
+	}
+	var readArg string
+	var readPos token.Pos
+	ast.Inspect(fi.Decl.Body, func(n ast.Node) bool {
+		if call, ok := n.(*ast.CallExpr); ok {
+			if f := callee(info, call); f != nil && f.Pkg() != nil && (f.Pkg().Path() == "os" || f.Pkg().Path() == "io/ioutil") && (f.Name() == "ReadFile" || f.Name() == "Open") && len(call.Args) >= 1 {
+				readArg = canon(call.Args[0], 0)
+				readPos = call.Pos()
+			}
+		}
+		return true
+	})
+	if readArg == "" {
+		r.Ob("read", p.Pos(fi.Decl.Pos()), false, "no file read found in FilePool.Get")
+		return
+	}
+	n := 0
+	ast.Inspect(fi.Decl.Body, func(m ast.Node) bool {
+		ie, ok := m.(*ast.IndexExpr)
+		if !ok || fieldOf(info, ie.X) != "list" {
+			return true
+		}
+		n++
+		k := canon(ie.Index, 0)
+		r.Ob("key", p.Pos(ie.Pos()), k == readArg, fmt.Sprintf("pool indexed by %s; the file read at %s uses %s", k, p.Pos(readPos), readArg))
+		return true
+	})
+	if n == 0 {
+		r.Ob("key", "-", false, "the pool's map is never indexed")
+	}
 }
